@@ -180,7 +180,7 @@ func init() {
 	harness.Register(&harness.Check{
 		ID:    "C09",
 		Level: "exploration",
-		Rule: "case = one container (array or object of 0..6 pairwise distinct members that hit, miss or mistype the operand paths, plus root members for $-operands) and " +
+		Rule: "case = one container (array or object of 0..6 — one case in twelve 17..40 — pairwise distinct members that hit, miss or mistype the operand paths, plus root members for $-operands) and " +
 			"sub-expressions A, B drawn from the systematic atoms (existence, every valid comparison of 6 operators x 13 operand kinds x both orders, regex) and from random queries " +
 			"(depth <=3, parentheses); checked relations between selected-member sets of real retrievals: sel(A&&B)=sel(A)∩sel(B), sel(A||B)=sel(A)∪sel(B), sel(!p)=all∖sel(p), " +
 			"sel(x!=y)=all∖sel(x==y), mirrored operators with swapped operands select the same, against a number literal <=/>= = (</>) ∪ ==, every selection is an in-order " +
